@@ -354,7 +354,9 @@ class FunctionReference:
         self.external = external
 
         # Get cluster_name
-        if cluster_name is not None:
+        if cluster_name is not None or external:
+            # (the cluster of an external function is the one given, possibly the default
+            # cluster: the stub for the function has no reference to ask yet)
             self._cluster_name = cluster_name
         else:
             self._cluster_name = (
